@@ -1,5 +1,5 @@
 PROP = {
-        "modules": ["Discv5Model.Props.C15", "Discv5Model.Props.C02", "Discv5Model.Props.C15Handler", "Discv5Model.Props.C02Attribution"],
+        "modules": ["Discv5Model.Props.C15", "Discv5Model.Props.C02", "Discv5Model.Props.C15Handler", "Discv5Model.Props.C02Attribution", "Discv5Model.Props.C15SessionUse"],
         "lemma_modules": ["Discv5Model.Proofs.LruLemmas"],
         "engines": [{"name": "lru", "quick": 300, "thorough": 5000}, {"name": "handler", "quick": 32, "thorough": 400}],
         "rule": "lru engine: each case = one LruTimeCache<u64,u64> (ttl 20..60 ms real time, capacity 0..4 or None) "
